@@ -197,6 +197,16 @@ static void vh_death (void)
 	vh_flush_stats () ;
 }
 static void vh_sigdeath (int sig) { fprintf (stderr, "ERROR: UndefinedBehaviorSanitizer: signal-%d \n", sig) ; vh_death () ; _exit (99) ; }
+/* the driver caps the size of every file a monitor process writes (RLIMIT_FSIZE): a loop that makes the sanitizer or the library print a line per
+** iteration ends here, as a hang of the running case that needs no confirmation run */
+static void vh_xfsz (int sig)
+{	(void) sig ; signal (SIGXFSZ, SIG_IGN) ;
+	if (vh_out)
+	{	fprintf (vh_out, "\n{\"t\":\"hang\",\"case\":%ld,\"kind\":\"output-flood\",\"desc\":", vh_case_idx) ; vh_json_str (vh_out, vh_case_desc) ; fprintf (vh_out, "}\n") ;
+		vh_dying = 1 ; vh_flush_stats () ;
+		}
+	_exit (97) ;
+}
 static void vh_alarm (int sig)
 {	(void) sig ;
 	if (vh_out)
@@ -247,7 +257,7 @@ static void vh_init (int argc, char **argv, const char *mon, const char *prop)
 		}
 	if (__sanitizer_set_death_callback) __sanitizer_set_death_callback (vh_death) ;
 	else { signal (SIGSEGV, vh_sigdeath) ; signal (SIGFPE, vh_sigdeath) ; signal (SIGBUS, vh_sigdeath) ; signal (SIGABRT, vh_sigdeath) ; signal (SIGILL, vh_sigdeath) ; }
-	signal (SIGALRM, vh_alarm) ; signal (SIGVTALRM, vh_cpu_alarm) ;
+	signal (SIGALRM, vh_alarm) ; signal (SIGVTALRM, vh_cpu_alarm) ; signal (SIGXFSZ, vh_xfsz) ;
 #ifdef VH_VALGRIND
 	if (RUNNING_ON_VALGRIND) vh_slow = 40 ;
 #endif
